@@ -456,6 +456,20 @@ def r_fresh_conversion(ctx: Ctx, rule: str):
         direct = [c for c in calls if isinstance(ctx.vals.resolve(outer, c.ast.func), ast.Name) and ctx.vals.resolve(outer, c.ast.func).id == cls_p]
         rep.ob(rule, "each argument text is converted afresh by the annotation's own converter", True if direct else None, func=w,
                construct=direct[0] if direct else "(conversion call not found)")
+        # the only thing handed back unconverted is argparse's SUPPRESS sentinel *object* (argparse itself tests `is not SUPPRESS`):
+        # a client can send the text '==SUPPRESS==', which is equal to the sentinel but not identical with it
+        gw = ctx.an.cfg(w)
+        raw = [r for r in ctx.nodes(w, lambda n: n.op == "return" and n.ast.value is not None and isinstance(strip_cast(n.ast.value), ast.Name) and strip_cast(n.ast.value).id == p0)]
+        ident = [t for t in ctx.nodes(w, lambda n: n.op == "test" and isinstance(n.ast, ast.Compare) and len(n.ast.ops) == 1 and isinstance(n.ast.ops[0], (ast.Is, ast.IsNot))
+                                      and isinstance(n.ast.left, ast.Name) and n.ast.left.id == p0 and isinstance(n.ast.comparators[0], ast.Name) and n.ast.comparators[0].id == "SUPPRESS")]
+        same = lambda t_: "T" if isinstance(t_.ast.ops[0], ast.Is) else "F"  # the branch on which the argument IS the sentinel
+        for r in ctx.distinct_sites(raw):
+            copies = [c for c in raw if c.ast is r.ast]
+            free = reach([gw.entry], lambda a, b, lab: not (a in ident and lab[0] == same(a)))
+            ok = bool(ident) and not any(c in free for c in copies)
+            rep.ob(rule, "an argument is handed back unconverted only if it IS the SUPPRESS sentinel (identity, as argparse tests it)", ok, node=r,
+                   detail="" if ok else "the raw argument can be returned without having been found identical with argparse.SUPPRESS: the text '==SUPPRESS==' sent by a "
+                                        "client compares equal to the sentinel and reaches the pool method unconverted")
 
 
 # ---------------------------------------------------------------------- R18.3
@@ -1835,10 +1849,15 @@ def r_ok_constant(ctx: Ctx, rule: str) -> None:
             if isinstance(x, ast.Attribute) and x.attr == "CMD_OK" and not isinstance(x.ctx, ast.Load):
                 others.append(f"{m2.relpath}:{x.lineno}")
     rep.ob(rule, "CMD_OK is not re-bound or shadowed anywhere else in the package", not others, construct="CMD_OK", detail=", ".join(others))
-    sess_mod = [m2 for m2 in ctx.prog.modules.values() if m2.name == SESSION_MOD]
-    imp = sess_mod[0].imports.get("CMD_OK") if sess_mod else None
-    rep.ob(rule, "the session's CMD_OK is the constant of internals.constants", imp is not None and imp.endswith("internals.constants.CMD_OK"), construct="control.session: CMD_OK",
-           detail=str(imp))
+    # every module that reads the name has it from internals.constants (the session itself, or the helper module its reply is built in)
+    users = []
+    for m2 in ctx.prog.modules.values():
+        if m2 is m or not any(isinstance(x, ast.Name) and x.id == "CMD_OK" and isinstance(x.ctx, ast.Load) for x in ast.walk(m2.tree)):
+            continue
+        imp = m2.imports.get("CMD_OK")
+        users.append(m2.name)
+        rep.ob(rule, "a module that uses CMD_OK has it from internals.constants", imp is not None and imp.endswith("internals.constants.CMD_OK"), construct=f"{m2.name}: CMD_OK", detail=str(imp))
+    rep.floor(rule, "modules using CMD_OK", len(users), 1)
 
 
 def r_omitted_params(ctx: Ctx, rule: str) -> None:
